@@ -468,14 +468,21 @@ def c20(chk):
     objs = []
     for d in (1, 2, 3):
         for fo in (-1, 4, 8):
-            pp = rand_pp(rng, d, fo, rng.choice([1, 3, 6]), 4 if fo != 8 else 6)
+            pp = rand_pp(rng, d, fo, rng.choice([1, 3, 6, 12]), 4 if fo != 8 else 6)
+            if rng.random() < 0.6 and pp.nseg >= 3:
+                # many short segments: a single step then crosses two or more breakpoints
+                bps = [pp.bps[0]]
+                for _ in range(pp.nseg):
+                    bps.append(bps[-1] + gen.real(rng, 0.05, 0.4, 0.6, 5))
+                pp = PP(pp.d, pp.fo, bps, pp.rows, pp.nc)
             slot = d * 1000 + 700 + (0 if fo < 0 else fo)
             lines.append(init_line(rid, slot, 1, pp, 'F')); plan.append(('init', None)); rid += 1
-            for _ in range(4 if not chk.thorough() else 20):
+            for _ in range(10 if not chk.thorough() else 40):
                 a = rng.uniform(pp.bps[0], pp.bps[-1]); b = rng.uniform(a, pp.bps[-1])
-                if rng.random() < 0.3:
+                if rng.random() < 0.4:
                     a, b = pp.bps[0], pp.bps[-1]
-                dt = rng.choice([0.01, 0.05, 0.37, 0.5, 1.3, 5.0])
+                span = pp.bps[-1] - pp.bps[0]
+                dt = rng.choice([0.01, 0.05, 0.37, 0.5, 1.3, 5.0, span / 3.3, span / 2.2, span / 5.7])
                 lines.append(f'{rid} F pp_len {slot} {hx(a)} {hx(b)} {hx(dt)}'); plan.append(('len', (pp, slot, a, b, dt))); rid += 1
             # factories
             zs = d * 1000 + 800 + (0 if fo < 0 else fo)
